@@ -357,18 +357,66 @@ func ruleT4(c *Ctx) *RuleResult {
 			}
 		})
 		var acceptP, acceptE []string
+		// the filter may keep its prefixes in a package-level table and test them in a helper
+		csFns := []*ssa.Function{cs}
 		allInstrs(cs, func(in ssa.Instruction) {
-			if call, ok := in.(*ssa.Call); ok && isFuncNamed(call.Call.StaticCallee(), "strings", "HasPrefix") {
-				if s, ok := constString(call.Call.Args[1]); ok {
-					acceptP = append(acceptP, s)
-				}
-			}
-			if bo, ok := in.(*ssa.BinOp); ok && (bo.Op == token.NEQ || bo.Op == token.EQL) {
-				if s, ok := constString(bo.Y); ok && s != "" {
-					acceptE = append(acceptE, s)
+			if call, ok := in.(*ssa.Call); ok {
+				if g := call.Call.StaticCallee(); g != nil && InRootPkg(g) && g.Blocks != nil {
+					csFns = appendUnique(csFns, g)
 				}
 			}
 		})
+		globals := map[*ssa.Global]bool{}
+		for _, g := range csFns {
+			allInstrs(g, func(in ssa.Instruction) {
+				for _, op := range in.Operands(nil) {
+					if gl, ok := (*op).(*ssa.Global); ok && gl.Pkg != nil && gl.Pkg.Pkg.Path() == modPath {
+						globals[gl] = true
+					}
+				}
+			})
+		}
+		for gl := range globals {
+			initFn := gl.Pkg.Func("init")
+			if initFn == nil {
+				continue
+			}
+			// constants that init() stores into the table: elements of the global array itself, or of the backing
+			// array of the slice stored into the global
+			backing := map[ssa.Value]bool{gl: true}
+			allInstrs(initFn, func(x ssa.Instruction) {
+				if st, ok := x.(*ssa.Store); ok && st.Addr == ssa.Value(gl) {
+					if sl, ok := st.Val.(*ssa.Slice); ok {
+						backing[sl.X] = true
+					}
+				}
+			})
+			allInstrs(initFn, func(x ssa.Instruction) {
+				st, ok := x.(*ssa.Store)
+				if !ok {
+					return
+				}
+				if ia, ok := st.Addr.(*ssa.IndexAddr); ok && backing[ia.X] {
+					if str, ok := constString(st.Val); ok && str != "" {
+						acceptP = append(acceptP, str)
+					}
+				}
+			})
+		}
+		for _, csf := range csFns {
+			allInstrs(csf, func(in ssa.Instruction) {
+				if call, ok := in.(*ssa.Call); ok && isFuncNamed(call.Call.StaticCallee(), "strings", "HasPrefix") {
+					if s, ok := constString(call.Call.Args[1]); ok {
+						acceptP = append(acceptP, s)
+					}
+				}
+				if bo, ok := in.(*ssa.BinOp); ok && (bo.Op == token.NEQ || bo.Op == token.EQL) {
+					if s, ok := constString(bo.Y); ok && s != "" {
+						acceptE = append(acceptE, s)
+					}
+				}
+			})
+		}
 		seenP := map[string]bool{}
 		for _, p := range prefixes {
 			if seenP[p] {
@@ -566,7 +614,7 @@ func ruleT7(c *Ctx) *RuleResult {
 				if freshObject(s.Addr) {
 					continue
 				}
-				if fn != fin {
+				if fn != fin && !finPhase(c, fin, fn) {
 					okStores = false
 					where = FuncName(fn)
 				}
@@ -592,7 +640,7 @@ func ruleT7(c *Ctx) *RuleResult {
 				okS := true
 				for _, fn := range c.Funcs {
 					for _, s := range storesToField(c, fn, sf) {
-						if !freshObject(s.Addr) && fn != fin {
+						if !freshObject(s.Addr) && fn != fin && !finPhase(c, fin, fn) {
 							okS = false
 						}
 					}
@@ -688,4 +736,32 @@ func isSuccessReturnLoose(ret *ssa.Return) bool {
 		}
 	}
 	return true
+}
+
+// finPhase: fn is a phase of fin — a method of the same receiver that is called from fin (or from another phase) and
+// from nowhere else.
+func finPhase(c *Ctx, fin, fn *ssa.Function) bool {
+	set := map[*ssa.Function]bool{fin: true}
+	for _, g := range sameRecvCallees(fin) {
+		set[g] = true
+	}
+	if !set[fn] {
+		return false
+	}
+	for changed := true; changed; {
+		changed = false
+		for g := range set {
+			if g == fin {
+				continue
+			}
+			for _, e := range c.callersOf(g) {
+				if !set[e.Caller.Func] {
+					delete(set, g)
+					changed = true
+					break
+				}
+			}
+		}
+	}
+	return set[fn]
 }
